@@ -278,6 +278,15 @@ protected:
     {
       core::BufferView view(localBuffer.data() + offset,
                             localBuffer.size() - offset);
+
+      // A malformed header can never become a frame: fail the connection now
+      // instead of treating it as "incomplete" and buffering forever.
+      if (WebSocketFrame::inspectHeader(view) == WsHeaderStatus::ProtocolError)
+      {
+        failSession(sid, 1002, "Protocol error");
+        return;
+      }
+
       std::size_t consumed = 0;
       auto frame = WebSocketFrame::parse(view, consumed);
 
@@ -308,6 +317,36 @@ protected:
   }
 
 private:
+  /// \brief Fail the WebSocket connection (RFC 6455 Section 7.1.7): send a Close
+  /// frame with \p code unless one was already sent, report the error, drop the
+  /// per-session state (receive and fragment buffers) and close the TCP session.
+  /// Later bytes of the session find no state and are discarded.
+  void failSession(SessionId sid, std::uint16_t code, const std::string& reason)
+  {
+    bool closeAlreadySent = true;
+    {
+      std::lock_guard<std::mutex> lock(_wsMutex);
+      auto it = _sessions.find(sid);
+      if (it != _sessions.end())
+      {
+        closeAlreadySent = it->second.closeSent;
+      }
+    }
+    if (!closeAlreadySent)
+    {
+      sendClose(sid, code, reason);
+    }
+    if (_onError)
+    {
+      _onError(sid, reason);
+    }
+    {
+      std::lock_guard<std::mutex> lock(_wsMutex);
+      _sessions.erase(sid);
+    }
+    closeSession(sid);
+  }
+
   void handleFrame(SessionId sid, const WebSocketFrame& frame)
   {
     switch (frame.opcode)
